@@ -17,6 +17,11 @@ No waiting, no wall clock:
   * the service task is not started; socket.io level background tasks are queued by `world.ServerWorld` and run by
     `settle()`.
 
+On the asyncio server a client may also use the websocket transport, directly or by upgrading its polling session
+(`websocket()` -> `WsSession`): ASGI scope type 'websocket'; the connection is a task of the server's event loop that
+lives across script steps, and `pump()` runs the loop until nothing is runnable.  (The threaded server's websocket
+needs a real socket and blocking threads: not driven here.)
+
 Clients come in the three flavours of the polling transport: 'xhr' (plain), 'jsonp' (`j=<index>` in the query string,
 form-encoded `d=` POST bodies) and 'b64' (`b64=1`).  `decode()` reads a response body the way such a client would.
 """
@@ -49,13 +54,15 @@ class _NoWaitQueue(queue.Queue):
 
 
 class _NoWaitAsyncQueue(asyncio.Queue):
+    suspends = False      # True for a session served over a websocket: its writer task sleeps until there is something
+
     async def join(self):
         return None
 
     async def get(self):
-        if self.empty():
+        if self.empty() and not self.suspends:
             raise asyncio.TimeoutError()     # what `wait_for(queue.get(), timeout)` ends in on an idle poll
-        return self.get_nowait()
+        return await asyncio.Queue.get(self)
 
 
 class Client:
@@ -129,8 +136,13 @@ class HttpWorld:
             self.ids.append(i)
             return i
         self.eio.generate_id = generate_id
+        self._ws_next = False
         if self.is_async:
-            self.eio.create_queue = lambda *a, **k: _NoWaitAsyncQueue(*a, **k)
+            def create_queue(*a, **k):
+                q = _NoWaitAsyncQueue(*a, **k)
+                q.suspends = self._ws_next
+                return q
+            self.eio.create_queue = create_queue
 
             async def _sleep(seconds=0):
                 return None
@@ -158,7 +170,8 @@ class HttpWorld:
         return _T()
 
     def ping(self, client):
-        """the ping interval of this client's socket elapses: -> was a ping loop waiting?"""
+        """the ping interval of this client's socket elapses: -> False (no ping loop was waiting) | True |
+        ('died', exception class): the background task ended with an exception, as a thread would, silently"""
         tasks = self.pings.get(client.sid) or []
         if not tasks:
             return False
@@ -171,6 +184,8 @@ class HttpWorld:
             r = target(*args, **kwargs)
             if asyncio.iscoroutine(r):
                 self.w.loop.run_until_complete(r)
+        except Exception as ex:   # noqa
+            return ('died', type(ex).__name__)
         finally:
             self.eio.ping_interval = keep
         return True
@@ -258,11 +273,117 @@ class HttpWorld:
         s = self.eio.sockets.get(client.sid)
         return s is not None and not s.queue.empty()
 
+    # ---- websocket transport (asyncio / ASGI only): a connection is a task that lives across script steps
+    def pump(self):
+        """run the event loop until nothing is runnable (timers are never reached: no time passes)"""
+        loop = self.w.loop
+        for _ in range(100000):
+            if not loop._ready:
+                break
+            loop.call_soon(loop.stop)
+            loop.run_forever()
+
+    def websocket(self, client, upgrade=False, headers=None):
+        """the client opens a websocket: directly (`transport=websocket`, no sid) or to upgrade its polling session"""
+        if not self.is_async:
+            raise ValueError('websocket sessions are driven through ASGI only')
+        ws = WsSession(self, client, upgrade, headers or {})
+        before = set(self.eio.sockets)
+        if upgrade:
+            sock = self.eio.sockets.get(client.sid)
+            if sock is not None:
+                sock.queue.suspends = True
+        self._ws_next = not upgrade
+        try:
+            ws.task = self.w.loop.create_task(self.sio.handle_request(ws.scope, ws.receive, ws.send))
+            self.pump()
+        finally:
+            self._ws_next = False
+        if not upgrade:
+            new = [x for x in self.eio.sockets if x not in before]
+            client.sid = new[0] if new else None
+        return ws
+
     def settle(self):
         return self.w.settle()
 
     def close(self):
         self.w.close()
+
+
+class WsSession:
+    """one websocket connection through `AsyncServer.handle_request(scope, receive, send)` with scope type
+    'websocket': `receive` hands over what the script makes the client send, `send` records what the server sends"""
+
+    def __init__(self, hw, client, upgrade, headers):
+        self.hw = hw
+        self.client = client
+        q = 'EIO=4&transport=websocket'
+        client.t += 1
+        q += '&t=v%s%d' % (client.name, client.t)
+        if upgrade and client.sid is not None:
+            q += '&sid=' + client.sid
+        hdrs = [(b'host', b'localhost'), (b'upgrade', b'websocket'), (b'connection', b'Upgrade'),
+                (b'sec-websocket-version', b'13')]
+        for k, v in headers.items():
+            if k.startswith('HTTP_'):
+                hdrs.append((k[5:].lower().replace('_', '-').encode(), v.encode()))
+        self.scope = {'type': 'websocket', 'path': PATH, 'query_string': q.encode(), 'headers': hdrs,
+                      'scheme': 'ws', 'server': ('localhost', 80), 'client': ('127.0.0.1', 1234), 'subprotocols': []}
+        self.inbox = []
+        self.waiter = None
+        self.connected = False
+        self.out = []
+        self.task = None
+
+    async def receive(self):
+        if not self.connected:
+            self.connected = True
+            return {'type': 'websocket.connect'}
+        while not self.inbox:
+            self.waiter = self.hw.w.loop.create_future()
+            await self.waiter
+        return self.inbox.pop(0)
+
+    async def send(self, ev):
+        t = ev.get('type')
+        if t == 'websocket.send':
+            if ev.get('bytes') is not None:
+                self.out.append(['bytes', bytes(ev['bytes']).hex()])
+            else:
+                self.out.append(['text', ev.get('text')])
+        elif t == 'websocket.accept':
+            self.out.append(['accept', sorted((a.decode('latin-1'), b.decode('latin-1'))
+                                              for a, b in ev.get('headers') or [])])
+        elif t == 'websocket.close':
+            self.out.append(['close', ev.get('reason')])
+        else:
+            self.out.append([str(t), repr(ev)])
+
+    def _feed(self, ev):
+        self.inbox.append(ev)
+        if self.waiter is not None and not self.waiter.done():
+            self.waiter.set_result(None)
+        self.hw.pump()
+
+    def client_sends(self, data):
+        """a text (str) or binary (bytes) frame from the client"""
+        if isinstance(data, bytes):
+            self._feed({'type': 'websocket.receive', 'bytes': data, 'text': None})
+        else:
+            self._feed({'type': 'websocket.receive', 'text': data, 'bytes': None})
+
+    def client_closes(self):
+        self._feed({'type': 'websocket.disconnect', 'code': 1000})
+
+    def take(self):
+        """what the server has sent on this connection since the last call"""
+        self.hw.pump()
+        out, self.out = self.out, []
+        return out
+
+    def ended(self):
+        return self.task is not None and self.task.done()
 
 
 def plain_body(resp):
